@@ -27,7 +27,7 @@ ASSUMPTIONS = [
     "contextlib.contextmanager semantics: an exception in the with-body is thrown in at the yield; generators are LIFO",
     "settings are plain instance attributes (vars(self)) as established by Settings.__init__",
 ]
-FLOORS = {"Y1": 1, "Y2": 1, "Y3": 2, "Y4": 4, "Y5": 8, "Y6": 2, "Y7": 2, "Y8": 3}
+FLOORS = {"Y1": 1, "Y2": 1, "Y3": 2, "Y4": 5, "Y5": 8, "Y6": 2, "Y7": 2, "Y8": 3}
 
 SPEC_SETTINGS = ["float_type", "decimals", "atol", "rtol", "alias", "logger", "factory_manager"]
 
@@ -145,6 +145,21 @@ def context_rules(check: Check) -> None:
             why = f"restored value is {show(val)}"
     check.require(good, "Y4", "Settings.context/restore-value",
                   "each restored value is snapshot[key] for the key being restored" if good else why, loc(fn, restores[0][0]))
+    # every named setting is restored, whatever it holds at that moment: nothing inside the restore loop decides whether to restore
+    cond = []
+    for n, t in restores:
+        hs_ = cfg.enclosing_loops(n)
+        body_ = cfg.lexical_body(hs_[-1]) if hs_ else set()
+        for g, pol, gn in cfg.must_guards(n):
+            if gn in body_:
+                gt = r.term(g, gn)
+                harmless = gt[0] == "cmp" and gt[1] == ("in",) and gt[2][0] == t[2][1] and gt[2][1] in snap_terms and pol
+                if not harmless:
+                    cond.append((n, unparse(g)))
+    check.require(not cond, "Y4", "Settings.context/restore-unconditional",
+                  "inside the restore loop nothing decides whether a named setting is restored" if not cond else
+                  f"a named setting is restored only when `{cond[0][1][:80]}`: whether the previous value comes back depends on what the "
+                  "setting holds on exit, so a direct assignment inside the context survives it", loc(fn, cond[0][0] if cond else fn.node))
     # Y4b: which settings are applied/restored is decided by the arguments alone (named = not None), never by the current values
     coll_names = set()
     for n, _ in applies + restores:
